@@ -364,6 +364,50 @@ def Conn_Release : List String := [
   "c.Close()",
   "end"
 ]
+def EncodeTargetReadyMessage : List String := [
+  "return []byte(fmt.Sprintf(\"%s|%s\", tunnelID, targetNodeID))"
+]
+def DecodeTargetReadyMessage : List String := [
+  "s := string(data)",
+  "for i := len(s) - 1; i >= 0; i--",
+  "if s[i] == '|'",
+  "tunnelID = s[:i]",
+  "targetNodeID = s[i+1:]",
+  "return",
+  "end",
+  "end",
+  "err = coreerrors.New(coreerrors.CodeInvalidPacket, \"invalid target ready message format\")",
+  "return"
+]
+def Listener_handleConnection : List String := [
+  "shouldCloseConn := true",
+  "defer func",
+  "if shouldCloseConn",
+  "conn.Close()",
+  "end",
+  "end()",
+  "tcpConn, ok := conn.(*net.TCPConn)",
+  "if !ok",
+  "return",
+  "end",
+  "tunnelID, frameType, data, err := ReadFrame(tcpConn)",
+  "if err != nil",
+  "return",
+  "end",
+  "tunnelIDStr := TunnelIDToString(tunnelID)",
+  "switch frameType",
+  "case FrameTypeTargetReady",
+  "shouldCloseConn = false",
+  "l.handleTargetReady(ctx, tcpConn, tunnelIDStr, data)",
+  "case FrameTypeHTTPProxy",
+  "l.handleHTTPProxy(ctx, tcpConn, data)",
+  "case FrameTypeDNSQuery",
+  "l.handleDNSQuery(ctx, tcpConn, data)",
+  "case FrameTypeCommand",
+  "l.handleCommand(ctx, tcpConn, data)",
+  "default",
+  "end"
+]
 end Flow
 
 end Gen
